@@ -33,6 +33,8 @@ mod rng;
 mod common;
 mod layouts;
 mod mapper_mon;
+mod vclock;
+mod loop_mon;
 
 use std::collections::HashMap;
 
@@ -55,6 +57,7 @@ fn main() {
   let opts = common::Opts::from_map(kv);
   let code = match args[1].as_str() {
     "mapper" => mapper_mon::run(&opts),
+    "loop" => loop_mon::run(&opts),
     "replay" => common::replay(&opts),
     "merge" => common::merge_distinct(&args[2..].to_vec()),
     _ => usage()
